@@ -195,6 +195,30 @@ impl DatagramState {
         dropped_any
     }
 
+    /// Discard datagrams at the front of the outgoing queue whose payload exceeds `max_payload` bytes
+    ///
+    /// Returns whether any datagrams were dropped.
+    ///
+    /// Datagrams are sent in order, so this is enough to keep an oversized datagram from blocking
+    /// the queue; any further oversized datagrams are discarded once they reach the front.
+    pub(super) fn drop_oversized_front(&mut self, max_payload: usize) -> bool {
+        let mut dropped_any = false;
+        while let Some(datagram) = self.outgoing.front() {
+            if datagram.data.len() <= max_payload {
+                break;
+            }
+            trace!(
+                "dropping {} byte datagram violating {} byte limit",
+                datagram.data.len(),
+                max_payload
+            );
+            self.outgoing_total -= datagram.data.len();
+            self.outgoing.pop_front();
+            dropped_any = true;
+        }
+        dropped_any
+    }
+
     /// Attempt to write a datagram frame into `buf`, consuming it from `self.outgoing`
     ///
     /// Returns whether a frame was written. At most `max_size` bytes will be written, including
